@@ -314,7 +314,7 @@ def random_plot_call(F, S, rng):
         (lambda: F.plot.density_and_hist(d, gated, None, c2, dp, hc, hp))
 
 
-def bead_sample(F, rng, path):
+def bead_sample(F, rng, path, rmax=262144):
     """small well-separated bead sample (3 populations) for the calibration template."""
     K, n = 4, 120
     lad = np.array([60., 300., 1500., 7000.])
@@ -326,6 +326,7 @@ def bead_sample(F, rng, path):
     ev = [[float(cols[j][i]) for j in range(3)] for i in order]
     spec = dict(version='FCS3.0', datatype='F', widths=[32] * 3, events=ev, ranges=[262144] * 3,
                 names=['FL1', 'FL2', 'FL3'], pne=['0,0'] * 3)
+    spec['ranges'] = [rmax] * 3
     return zoo.write_and_load(F, spec, path)
 
 
@@ -376,10 +377,15 @@ def run(ctx):
         ctx.case_done(class_key=('random-plot', q, 'raised' if o.raised else 'ok'), nontrivial=True, distinct_key=core.digest(cid, label),
                       sample={'template': mon.template} if cid[1] < 2 else None)
     # calibration with plots (populations list, dict parameters) under the same monitors
-    for cid, rng in ctx.cases([('calib', r) for r in range(2 if ctx.tier == 'quick' else 12)]):
+    for cid, rng in ctx.cases([('calib', r) for r in range(4 if ctx.tier == 'quick' else 16)]):
         mon.cid = cid
-        b = bead_sample(F, rng, path)
-        mefv = [[500., 2500., 12500., 60000.], [700., 3500., 17000., np.nan]]
+        # odd cases: the brightest population lies beyond the detector range in two channels, so the selection step sets it
+        # aside, and the caller's table of MEF values comes in another container (2-D float array, list of arrays, tuples)
+        b = bead_sample(F, rng, path, rmax=262144 if cid[1] % 2 == 0 else 8192)
+        mefv = [[500., 2500., 12500., 60000.], [700., 3500., 17000., np.nan if cid[1] % 2 == 0 else 80000.]]
+        if cid[1] % 2 == 1:
+            mefv = [np.array(mefv, dtype=float), [np.array(r_) for r_ in mefv], tuple(tuple(r_) for r_ in mefv),
+                    np.array(mefv, dtype=float)][(cid[1] // 2) % 4]
         cp, sp, fp_, selp = {'tol': 1e-6}, {}, {}, {'n_std_low': 2.0}
         mon.template = 'mef.get_transform_fxn [plot=True]'
         np.random.seed(int(rng.integers(1 << 30)))
